@@ -51,7 +51,8 @@ class Graph:
                     __call__=None)
         # networkx returns a ONE-SHOT iterator (iter over the predecessor dictionary), not a list
         g = Obj('graph', predecessors=Extern('graph.predecessors', lambda c, n: iter([a for (a, b) in self.edges if b == n])),
-                has_node=Extern('graph.has_node', lambda c, n: n in data))
+                has_node=Extern('graph.has_node', lambda c, n: n in data),
+                number_of_nodes=Extern('graph.number_of_nodes', lambda c: len(data)))
         nodes_callable = NodesView(data)
         g.nodes = nodes_callable
         return g
